@@ -275,11 +275,13 @@ def explore_frames(res, tier, rng, model_ok):
 
 EXTS = [None, 'permessage-deflate', 'permessage-deflate; client_no_context_takeover', 'permessage-deflate; server_no_context_takeover',
         'permessage-deflate; client_max_window_bits=9', 'permessage-deflate; client_no_context_takeover; client_max_window_bits=10; server_max_window_bits=11',
-        'permessage-deflate; server_max_window_bits=8; client_max_window_bits=15']
+        'permessage-deflate; server_max_window_bits=8; client_max_window_bits=15',
+        # legal spellings of the same parameters (RFC 7230 optional whitespace, RFC 7692 quoted values)
+        'permessage-deflate; client_max_window_bits = 9', 'permessage-deflate;client_max_window_bits="8"', 'permessage-deflate ;  client_no_context_takeover ; client_max_window_bits =10']
 
 
 def history_scenario(rng, ext, key_seed):
-    base = gen_core.rand_text(rng, rng.choice([12, 40, 300])).decode('utf-8')
+    base = gen_core.rand_text(rng, rng.choice([12, 40, 300, 900])).decode('utf-8')      # 900: repeats lie further back than a 2^8 / 2^9 window
     t1, t2 = 'header: ' + base, base + ' again ' + base
     b1 = ('bin ' + base).encode('utf-8') + gen_core.rand_bytes(rng, 20)
     acts = [('send_text', ('s', [ord(c) for c in t1]), True), ('send_binary', ('b', b1), True), ('send_text', ('s', [ord(c) for c in t2]), False),
@@ -364,7 +366,7 @@ def explore(res, tier, seed, model_ok=True):
                 'exhaustive: mask_payload on 4 lanes x 256 key bytes x 256 data bytes; '
                 'frame level: the real Frame.build (all 16 FIN/RSV combinations, lengths on both sides of 126 and 65536, every key byte value in every lane) against the model and against the independent decoder, '
                 'the model\'s specification decoder against the independent decoder on valid frames, frame sequences and header malformations (unmasked, truncated, non-minimal lengths, 2^63); '
-                'histories: 8 calls (compressed and not, control frames) in one connection under 7 reply-extension spellings (window bits, no_context_takeover either side, none), inflated by a peer configured from the REPLY BYTES, '
+                'histories: 8 calls (compressed and not, control frames) in one connection under 10 reply-extension spellings (incl. whitespace around the equals sign and quoted values) (window bits, no_context_takeover either side, none), inflated by a peer configured from the REPLY BYTES, '
                 'and the same on ONE WebSocket object connected 2 or 3 times with every ordered pair of negotiations (each connection judged by its own negotiation, and against the model of a fresh connection); '
                 'non-trivial = every call; distinct by call')
     bad = real_mask_table(None)
